@@ -176,6 +176,8 @@ func c03Sites(g *hx.Gen) []c03Site {
 		// directory scopes in normal form, no archives, no proxy: the class of C03_no_disclosure_dirscoped
 		{"", "/|", "", []string{"basicauth bob pw /secret/,/docs/ /secret/deep/", "internal /int/", "tryfiles {path} /pub/a.txt", "ext .txt"}, u},
 		{"/pre", "", "", []string{"basicauth bob pw /secret/", "basicauth alice pw2 /secret2/,/secret/deep/", "internal /int/sub/", "rewrite base /r /secret/s.txt /int/sub/j.txt"}, u},
+		// … with archives and proxies whose scopes do not lie strictly above a protection scope (ScopeClear)
+		{"", "/pub/|tar,zip;/secret/deep/|zip;/area/locked|tar", "", []string{"basicauth bob pw /secret/,/area/locked/", "internal /int/", "proxy /api 9001", "proxy /secret/api 9002"}, u},
 		{"", "", "", []string{"tryfiles {path} /pub/a.txt", "basicauth bob pw /secret"}, u},
 		{"", "", "", []string{"tryfiles {path} /secret/s.txt", "basicauth bob pw /secret"}, u},
 		{"/pre", "", "", []string{"tryfiles {path} /pub/a.txt", "basicauth bob pw /secret"}, u},
@@ -226,8 +228,15 @@ var c03Queries = []string{"", "", "", "?archive=tar", "?archive=zip", "?archive=
 func c03Gen(g *hx.Gen) {
 	for _, s := range c03Sites(g) {
 		sf := s.fields()
-		emit := func(method, target, ae, cred string) {
-			g.Case(append(append([]string{}, sf...), method, hx.HS(target), hx.HS(ae), hx.HS(cred))...)
+		emitC := func(method, target, ae, cred, cond string) {
+			g.Case(append(append([]string{}, sf...), method, hx.HS(target), hx.HS(ae), hx.HS(cred), hx.HS(cond))...)
+		}
+		emit := func(method, target, ae, cred string) { emitC(method, target, ae, cred, "") }
+		gzipSite := false
+		for _, d := range s.dirs {
+			if d == "gzip" {
+				gzipSite = true
+			}
 		}
 		creds := append([]string{"", ""}, s.users...)
 		alpha := append(append([]string{}, c03Segs...), c03Names...)
@@ -251,6 +260,13 @@ func c03Gen(g *hx.Gen) {
 				}
 				for _, m := range []string{"HEAD", "POST", "OPTIONS"} {
 					emit(m, s.prefix+esc+tail, "gzip", "")
+				}
+				// conditional and range requests: a 304 / 206 / 416 names a file through its headers
+				if !gzipSite {
+					for _, c := range []string{fmt.Sprintf("inm=s%d", e.ino), "inm=*", "range=0-3", "ims=999999"} {
+						emitC("GET", s.prefix+esc+tail, "", "", c)
+					}
+					emitC("HEAD", s.prefix+esc+tail, "", "bob:wrong", "range=2-")
 				}
 				// the same resource without the slash after the site prefix
 				if s.prefix != "" {
@@ -296,7 +312,7 @@ func c03Gen(g *hx.Gen) {
 				emit("GET", s.prefix+"/"+a+"/"+b, "", "")
 			}
 		}
-		n := 1200
+		n := 500
 		if g.Thorough() {
 			n = 3000
 		}
@@ -328,7 +344,7 @@ func c03Gen(g *hx.Gen) {
 }
 
 func c03Eval(f []string) (string, []string) {
-	if len(f) != 11 {
+	if len(f) != 12 {
 		return "bad-case", nil
 	}
 	site, err := fsSiteFor(f[:7], func(T string) (string, error) {
@@ -341,7 +357,8 @@ func c03Eval(f []string) (string, []string) {
 	if err != nil {
 		return "setup-error:" + err.Error(), nil
 	}
-	method, target, ae, cred := f[7], hx.UnHS(f[8]), hx.UnHS(f[9]), hx.UnHS(f[10])
+	id := site.ident()
+	method, target, ae, cred, cond := f[7], hx.UnHS(f[8]), hx.UnHS(f[9]), hx.UnHS(f[10]), hx.UnHS(f[11])
 	hdr := "Accept: application/json\r\n"
 	if ae != "" {
 		hdr += "Accept-Encoding: " + ae + "\r\n"
@@ -349,7 +366,14 @@ func c03Eval(f []string) (string, []string) {
 	if cred != "" {
 		hdr += "Authorization: Basic " + base64.StdEncoding.EncodeToString([]byte(cred)) + "\r\n"
 	}
-	out, kind := site.roundTripOpt(method, target, hdr, false)
+	hdr += c02CondHeaders(cond, id)
+	resp, body, rerr, err := site.fetch(method, target, hdr)
+	if err != nil {
+		return "io-error", []string{"io-error"}
+	}
+	// every answer is rendered with the files its headers identify (ETag, Last-Modified,
+	// Content-Range): also a HEAD, 304 or error answer discloses a protected file that way
+	out, kind := c02CondRender(method, resp, body, rerr, id, false, true)
 	if out == "S401" {
 		out, kind = "U401", "U401"
 	}
@@ -361,6 +385,9 @@ func c03Eval(f []string) (string, []string) {
 		tags = append(tags, "no-creds")
 	} else {
 		tags = append(tags, "creds")
+	}
+	if cond != "" {
+		tags = append(tags, "conditional")
 	}
 	if kind == "S404" || kind == "S400" || kind == "S405" {
 		tags = append(tags, "trivial-"+kind)
